@@ -43,7 +43,7 @@ E1NOTE = "Trusts the lab's spec printer/value builder, net/http, the Go compiler
 CHECKS.update({
  "C02": (E1, E1TECH + "; expected stub payload = sent payload + defaults with documented ambiguity classes", "Valid payloads over the boundary value classes are sent through the generated client, the wire (serialise + re-parse) and the generated server to a recording stub; every difference between the tree sent and the tree the service method received is a violation.", E1NOTE + " MultipartRequest() endpoints are driven with the lab's own user encoder/decoder (one JSON part, DESIGN 13.9): goa's plumbing is judged there, not a codec. OneOf unions travel in request and response bodies (DESIGN 13.8)."),
  "C03": (E1, E1TECH + "; scripted results returned by the stub compared with the client's return value and the designed status", "The stub returns scripted valid results (tagged alternatives selected by value); status code, header placement and the value returned by the generated client are compared with the script.", E1NOTE),
- "C04": (E1, E1TECH + "; reference validator (written from the DSL documentation) decides validity of boundary probes; stub-invoked iff valid", "Boundary probes on both sides of every validation rule, removed required attributes and malformed wire encodings are sent through the generated client and hand-encoded; the reference validator decides validity; results violating the result's constraints are returned to the generated client.", E1NOTE + " Formats judged by construction class (C17 owns exactness)."),
+ "C04": (E1, E1TECH + "; reference validator (written from the DSL documentation) decides validity of boundary probes; stub-invoked iff valid", "Boundary probes on both sides of every validation rule, removed required attributes and malformed wire encodings are sent through the generated client and hand-encoded; the reference validator decides validity; results violating the result's constraints are returned to the generated client; short websocket streams in which one streamed message carries a boundary probe.", E1NOTE + " Formats judged by construction class (C17 owns exactness)."),
  "C05": (E1, E1TECH + "; literal status table and declared error responses from the spec", "Every declared error (default type: 8 flag combinations, wrapped/joined; custom types), undeclared service errors, plain Go errors and hand-encoded decode failures are provoked; status, goa-error header, body, WriteHeader count and the client's error are judged.", E1NOTE + " Nil error formatter (as goa example passes)."),
  "C06": (E1, E1TECH + "; recording Auther scripted by accept/reject vectors; reference evaluation 'exists requirement, all schemes accept'", "Every accept/reject vector over the schemes of the effective requirements, with credentials from class alphabets, explicit/implicit mappings, NoSecurity and inheritance; callbacks' arguments, scopes and the method's execution are judged.", E1NOTE),
  "C08": (E1, E1TECH + "; reference projection from the spec's views; response relabelling at the tap", "Per defined view the stub returns (result, view); wire members, goa-view header and the client's value are compared with the reference projection; responses relabelled with undefined views must be refused.", E1NOTE),
